@@ -27,7 +27,7 @@ func Spec() *evid.Spec {
 	return &evid.Spec{
 		ID:    "C10",
 		Level: "exploration",
-		Rule: "each case = one execution of real duty runners (committee 4 or 7, one of the 5 consensus roles, 0..f silent operators) forced through r-1 failed rounds (proposal lost / prepared but commits lost / proposal seen by a subset; all or only f+1 operators time out) " +
+		Rule: "each case = one execution of real duty runners (committee 4 or 7, one of the 5 consensus roles, 0..f silent operators) forced through r-1 failed rounds (proposal lost / prepared but commits lost / proposal seen by a subset / a single operator prepared whose prepared round-change reaches the next leader last; all or only f+1 operators time out) " +
 			"and decided in round r <= the role's maximum; every broadcast (pre-consensus, proposal, prepare, commit, round-change with and without prepared value, justified proposals, aggregated decided, post-consensus) gets a virtual emission time inside the " +
 			"round window derived from the round timer's rule and is validated on a per-peer real validator (both envelope phases) at emission + d, d = 0 / random / end of the sender's round window. Oracle: never reject; fault-free in-order timely runs: accept. " +
 			"Non-trivial = execution that decided after at least one failed round (or fault-free for the accept clause); distinct = (role, N, failure pattern, decision round)",
